@@ -1,0 +1,63 @@
+//! Verification facade (feature `verif-hooks`, off by default).
+//!
+//! Thin `pub` wrappers that forward to crate-private helpers so that external
+//! verification harnesses (Kani, replay programs) can call the real functions.
+//! Nothing here adds or changes behaviour of the library.
+
+use std::io::Read as _;
+
+use bytes::Bytes;
+use fe2o3_amqp_types::definitions::{DeliveryTag, ReceiverSettleMode};
+
+use crate::{
+    link::delivery::DeliveryInfo,
+    util::{IntoReader, Sealed},
+    Payload,
+};
+
+/// `session::consecutive_chunk_indices` (echo runs of the sender's settling disposition)
+pub fn session_consecutive_chunk_indices(delivery_ids: &[u32]) -> Vec<usize> {
+    crate::session::verif_consecutive_chunk_indices(delivery_ids)
+}
+
+/// `link::receiver_link::consecutive_chunk_indices` over `(delivery_id, rcv_settle_mode is second?)`
+pub fn receiver_consecutive_chunk_indices(infos: &[(u32, Option<bool>)]) -> Vec<usize> {
+    let infos: Vec<DeliveryInfo> = infos
+        .iter()
+        .map(|(id, mode)| DeliveryInfo {
+            delivery_id: *id,
+            delivery_tag: DeliveryTag::from(id.to_be_bytes().to_vec()),
+            rcv_settle_mode: mode.map(|second| match second {
+                true => ReceiverSettleMode::Second,
+                false => ReceiverSettleMode::First,
+            }),
+            _sealed: Sealed {},
+        })
+        .collect();
+    crate::link::verif_reexports::verif_consecutive_chunk_indices(&infos)
+}
+
+/// `link::receiver_link::count_number_of_sections_and_offset` on one payload
+pub fn count_number_of_sections_and_offset(bytes: &[u8]) -> (u32, u64) {
+    let payload: Payload = Bytes::copy_from_slice(bytes);
+    crate::link::verif_reexports::count_number_of_sections_and_offset(&payload)
+}
+
+/// Reads `dst_len` bytes at a time, `reads` times, from the chained-buffer reader that
+/// reassembled multi-frame deliveries are decoded from (`util::ByteReader<Payload>`),
+/// returning what each `read` call produced.
+pub fn chained_reader_reads(chunks: Vec<Vec<u8>>, dst_lens: &[usize]) -> Vec<Vec<u8>> {
+    let payloads: Vec<Payload> = chunks.into_iter().map(Bytes::from).collect();
+    let mut reader = crate::util::verif_byte_reader(payloads);
+    let mut out = Vec::new();
+    for len in dst_lens {
+        let mut dst = vec![0u8; *len];
+        let n = reader.read(&mut dst).unwrap_or(0);
+        dst.truncate(n);
+        out.push(dst);
+    }
+    out
+}
+
+#[allow(dead_code)]
+fn _uses(_: impl IntoReader<'static>) {}
